@@ -702,7 +702,7 @@ def _split_targs(s):
 META_EXTRA = "NEG (no negation of a possibly-minimum signed value); SIGN ('-' on every path that may format a negative value); CASTSIGN (no cast of the caller's value to a fixed signed type); OVFCHK (accumulation only after an unconditional overflow test); OVFCONST (exact thresholds limit / base, |limit % base|); OVFPRED (the overflow predicate evaluated over the six orderings of (value, digit) against the two thresholds); BUFLEN (a local array is handed to the kernel with its own extent as length); PARSE (front ends parse in the type they deliver, with the standard's white-space option); PARAM."
 META = (META[0] + " " + META_EXTRA, META[1])
 META = (META[0] + ' RETARG; SIBNAME (width siblings have one body).', META[1])
-META = (META[0] + ' NEGMIN (the parsed magnitude is negated only on paths that exclude numeric_limits::min()); SHRNEG (digit quotient / remainder helpers do not replace a truncating division of a possibly negative value by an arithmetic shift); controls in fixtures/arith_pos.hpp.', META[1])
+META = (META[0] + ' NEGMIN (the parsed magnitude is negated only on paths that exclude numeric_limits::min()); SHRNEG (digit quotient / remainder helpers do not replace a truncating division of a possibly negative value by an arithmetic shift); controls in fixtures/arith_pos.hpp; CHARCLASS (every <cctype> function the conversions read characters with is evaluated from its source for all 257 arguments against the "C" locale table).', META[1])
 
 
 def run(chk, tier):
@@ -722,6 +722,7 @@ def run(chk, tier):
     if buflen_rule(chk, D.load("checks")) < 1:
         chk.unknown_instance("BUFLEN", "etl::detail::to_string", "no local array handed to a formatting kernel found")
     parse_rule(chk, D.load("checks"))
+    charclass_rule(chk, D.load("checks"))
     from ..rules import iters as _ITG
     _ITG.retarg_area(chk, D.load("checks"), ['_string/sto', '_cstdlib/', '_charconv/'])      # RETARG: helper<X>() with X the caller's result type
     _ITG.sibname_area(chk, D.load("checks"), ['_string/sto', '_cstdlib/'])      # SIBNAME: strtol / strtoll, atoi / atol / atoll, ... have one body
@@ -735,3 +736,147 @@ def run(chk, tier):
         "digits produced, values parsed, round trips and overflow detection at the type's limits are run-time values and are "
         "not decided by these clauses",
     ]
+
+
+# ---- CHARCLASS: the character classes the conversions rely on are the C locale's ----------------------------------------------
+def charclass_rule(chk, db):
+    """to_integer / strto* / sto* / ato* skip `isspace` characters and read digits through isdigit / isalpha / tolower. Each
+    <cctype> function is a pure function of one int: its body is evaluated from the source for every value -1 .. 255
+    (comparisons, &&, ||, !, +, -, ?:, casts, boolean locals, straight-line if / return, calls of other <cctype> functions) and
+    compared with the "C" locale's table ([cctype.syn], C17 7.4): truth value for the is* functions, value for tolower /
+    toupper."""
+    import string
+    ref = {
+        "isspace": lambda c: c in (0x20, 0x09, 0x0a, 0x0b, 0x0c, 0x0d),
+        "isblank": lambda c: c in (0x20, 0x09),
+        "isdigit": lambda c: 0x30 <= c <= 0x39,
+        "isupper": lambda c: 0x41 <= c <= 0x5a,
+        "islower": lambda c: 0x61 <= c <= 0x7a,
+        "isalpha": lambda c: 0x41 <= c <= 0x5a or 0x61 <= c <= 0x7a,
+        "isalnum": lambda c: 0x30 <= c <= 0x39 or 0x41 <= c <= 0x5a or 0x61 <= c <= 0x7a,
+        "isxdigit": lambda c: 0x30 <= c <= 0x39 or 0x41 <= c <= 0x46 or 0x61 <= c <= 0x66,
+        "iscntrl": lambda c: 0 <= c <= 0x1f or c == 0x7f,
+        "isprint": lambda c: 0x20 <= c <= 0x7e,
+        "isgraph": lambda c: 0x21 <= c <= 0x7e,
+        "ispunct": lambda c: 0x21 <= c <= 0x7e and not (0x30 <= c <= 0x39 or 0x41 <= c <= 0x5a or 0x61 <= c <= 0x7a),
+        "tolower": lambda c: c + 32 if 0x41 <= c <= 0x5a else c,
+        "toupper": lambda c: c - 32 if 0x61 <= c <= 0x7a else c,
+    }
+    funcs = {}
+    for g in db.funcs:
+        if g["file"].startswith("_cctype/") and g.get("body") is not None and g["n"] in ref and len(g["params"]) == 1 and g.get("kind") == "function":
+            funcs.setdefault(g["n"], g)
+
+    class NM(Exception):
+        pass
+
+    class Ret(Exception):
+        def __init__(self, v):
+            Exception.__init__(self)
+            self.v = v
+
+    def ev(e, env, depth):
+        e = astx.strip_casts(e)
+        while e is not None and e.get("k") in ("construct", "initlist") and len(e.get("a", [])) == 1:
+            e = astx.strip_casts(e["a"][0])
+        if e is None or depth > 6:
+            raise NM("empty")
+        k = e.get("k")
+        if k == "int":
+            return int(e["v"])
+        if k == "bool":
+            return 1 if e["v"] else 0
+        if k == "char":
+            return int(e["v"])
+        if k == "ref":
+            if e["n"] in env:
+                return env[e["n"]]
+            raise NM("name `%s`" % e["n"])
+        if k == "un" and e["op"] == "!":
+            return 0 if ev(e["e"], env, depth) else 1
+        if k == "un" and e["op"] == "-":
+            return -ev(e["e"], env, depth)
+        if k == "bin":
+            op = e["op"]
+            if op == "&&":
+                return 1 if (ev(e["l"], env, depth) and ev(e["r"], env, depth)) else 0
+            if op == "||":
+                return 1 if (ev(e["l"], env, depth) or ev(e["r"], env, depth)) else 0
+            a, b = ev(e["l"], env, depth), ev(e["r"], env, depth)
+            if op in ("+", "-", "*", "|", "&", "^"):
+                return {"+": a + b, "-": a - b, "*": a * b, "|": a | b, "&": a & b, "^": a ^ b}[op]
+            if op in ("<", "<=", ">", ">=", "==", "!="):
+                return 1 if {"<": a < b, "<=": a <= b, ">": a > b, ">=": a >= b, "==": a == b, "!=": a != b}[op] else 0
+            raise NM("operator " + op)
+        if k == "cond":
+            return ev(e["t"] if ev(e["c"], env, depth) else e["f"], env, depth)
+        if k == "call":
+            nm = astx.callee(e)[0]
+            if nm in funcs and len(e["a"]) == 1:
+                return call(funcs[nm], ev(e["a"][0], env, depth), depth + 1)
+            raise NM("call `%s`" % astx.show(e, 30))
+        raise NM(astx.show(e, 30))
+
+    def run(st, env, depth):
+        if st is None:
+            return
+        k = st.get("k")
+        if k == "seq":
+            for s0 in st["s"]:
+                run(s0, env, depth)
+        elif k == "decl":
+            for v in st["vars"]:
+                if "other" not in v and v.get("init") is not None:
+                    env[v["n"]] = ev(v["init"], env, depth)
+        elif k == "return":
+            raise Ret(ev(st["e"], env, depth))
+        elif k == "if":
+            br = st.get("then") if ev(st["c"], env, depth) else st.get("else")
+            run(br, env, depth)
+        elif k in ("null",):
+            return
+        elif k == "expr":
+            ev(st["e"], env, depth)
+        else:
+            raise NM("statement " + str(k))
+
+    def call(g, arg, depth):
+        env = {g["params"][0]["n"]: arg}
+        try:
+            run(g["body"], env, depth)
+        except Ret as r:
+            return r.v
+        raise NM("no return")
+    n = 0
+    for name in sorted(funcs):
+        g = funcs[name]
+        n += 1
+        construct = astx.sig(g)
+        chk.instance("CHARCLASS")
+        bad = unknown = None
+        for c in range(-1, 256):
+            try:
+                got = call(g, c, 0)
+            except NM as ex:
+                unknown = str(ex)
+                break
+            if name in ("tolower", "toupper"):
+                want = ref[name](c)
+                ok = got == want
+            else:
+                want = bool(ref[name](c))
+                ok = bool(got) == want
+            if not ok and bad is None:
+                bad = (c, got, want)
+        if unknown:
+            chk.obligation("CHARCLASS", construct, None)
+            chk.unknown_instance("CHARCLASS", construct, "not evaluated: " + unknown)
+            continue
+        chk.obligation("CHARCLASS", construct, bad is None, evaluations=257)
+        if bad:
+            c, got, want = bad
+            chk.violation("CHARCLASS", construct, "class-table", "%s: %s(%d%s) is %s; in the \"C\" locale it is %s" % (
+                astx.loc(g), name, c, (" = '\\x%02x'" % c) if c >= 0 else "", got, want), {"where": astx.loc(g)})
+    if n < 6:
+        chk.analysis_broken("CHARCLASS: only %d <cctype> functions found (floor 6)" % n)
+    return n
